@@ -162,11 +162,9 @@ func c13Property(t *rapid.T) {
 		if !eqVal(got, want) {
 			r.fail("GetState(acct %d, key %q) = %q, latest write is %q", a, k, got, want)
 		}
-		if len(want) > 0 && !ok {
-			r.fail("GetState(acct %d, key %q) reports absent, latest write is %q", a, k, want)
-		}
-		if want == nil && ok && len(got) > 0 {
-			r.fail("GetState(acct %d, key %q) reports present after delete", a, k)
+		// a zero-length value is "no value" in every layer (dirty set, cache, database)
+		if ok != (len(want) > 0) {
+			r.fail("GetState(acct %d, key %q) reports exists=%v, latest write is %q", a, k, ok, want)
 		}
 	}
 	checkScalars := func(a int) {
@@ -193,12 +191,8 @@ func c13Property(t *rapid.T) {
 				want = append(want, v)
 			}
 		}
-		var gotNE [][]byte
-		for _, v := range got {
-			if len(v) > 0 {
-				gotNE = append(gotNE, v)
-			}
-		}
+		// exactly the live values: a key written with a zero-length value is not live in any layer
+		gotNE := append([][]byte(nil), got...)
 		sort.Slice(want, func(i, j int) bool { return bytes.Compare(want[i], want[j]) < 0 })
 		sort.Slice(gotNE, func(i, j int) bool { return bytes.Compare(gotNE[i], gotNE[j]) < 0 })
 		if len(want) != len(gotNE) {
@@ -238,9 +232,6 @@ func c13Property(t *rapid.T) {
 		"add": func(t *rapid.T) {
 			r.commitPending()
 			a, k, v := drawAcct(), drawKey(), drawVal()
-			if len(v) == 0 {
-				v = []byte("n")
-			}
 			r.logf("AddState(%d,%q,%q)  // non-journaled, depth=%d", a, k, v, len(r.snaps))
 			r.l.AddState(c13Addrs[a], []byte(k), v)
 			r.cur[a].storage[k] = v
